@@ -64,7 +64,9 @@ def runToks : Heap → List Tok → List String
   | h, .prep b ua :: r =>
     let p := h.step (.obsBuilder b)
     let out := match p.2 with
-      | some o => [obsToString o ++ ";prep=" ++ canonHeaders (preparedOf o ua)]
+      | some o => -- `;wire=ok`: the harness also sends the prepared request and compares the field lines on the wire with
+        -- the prepared header map; in the model the wire IS the rendering of that map (Model/Request.writeHeaders)
+        [obsToString o ++ ";prep=" ++ canonHeaders (preparedOf o ua) ++ ";wire=ok"]
       | none => []
     out ++ runToks (p.1.step (.dropBuilder b)).1 r
 
